@@ -525,7 +525,7 @@ def check_one_elec(ex, findings):
     info = dict(vert=vert, horiz=horiz, stores=[], X=None)
     X = None
     nv = len(vert.labels)
-    for s in ex.stores:
+    for s in compose_increments(ex, list(ex.stores)):
         try:
             terms, const, tsyms, subs = stencil_of(ex, s)
         except LabelMismatch as lm:
